@@ -8,6 +8,7 @@ import (
 	"io"
 	"net"
 	"time"
+	"unsafe"
 
 	"github.com/gammazero/nexus/v3/simrt"
 	"github.com/gammazero/nexus/v3/transport"
@@ -30,7 +31,17 @@ type NetFaults struct {
 	WriteErrS   int // the n-th server-side Write fails (0: never)
 }
 
+// netTok orders, for the race detector, the operations on one simulated
+// connection the way the kernel's socket buffers do in reality (what is read was
+// written before). The stubs' own fields are shared between the two ends by
+// design; the scheduler serialises them.
+type netTok struct{ v int64 }
+
+func (t *netTok) enter() { simrt.RaceAcquire(unsafe.Pointer(&t.v)) }
+func (t *netTok) leave() { simrt.RaceRelease(unsafe.Pointer(&t.v)) }
+
 type pipeHalf struct {
+	tok     *netTok
 	buf     []byte
 	window  int
 	wclosed bool // writer side closed: reader gets EOF after draining
@@ -56,6 +67,7 @@ func newHalf(window, frag, resetAt int) *pipeHalf {
 // the old one is closed: closing is a yield point in this (instrumented)
 // code, and another goroutine may call wake meanwhile.
 func (h *pipeHalf) wake(ch *chan struct{}) {
+	h.tok.leave() // closing is a yield point: publish first
 	old := *ch
 	*ch = make(chan struct{})
 	close(old)
@@ -71,14 +83,17 @@ type SimConn struct {
 	nWrite            int
 	werrAt            int
 	BytesIn, BytesOut int
+	tok               *netTok
 }
 
 // NewSimConnPair returns (client end, server end).
 func NewSimConnPair(c *Ctx, name string, f NetFaults) (*SimConn, *SimConn) {
 	c2s := newHalf(f.Window, f.MaxFrag, f.ResetAfterC)
 	s2c := newHalf(f.Window, f.MaxFrag, f.ResetAfterS)
-	cl := &SimConn{name: name + ":c", rd: s2c, wr: c2s, c: c}
-	sv := &SimConn{name: name + ":s", rd: c2s, wr: s2c, c: c, werrAt: f.WriteErrS}
+	tok := &netTok{}
+	c2s.tok, s2c.tok = tok, tok
+	cl := &SimConn{name: name + ":c", rd: s2c, wr: c2s, c: c, tok: tok}
+	sv := &SimConn{name: name + ":s", rd: c2s, wr: s2c, c: c, werrAt: f.WriteErrS, tok: tok}
 	cl.peer, sv.peer = sv, cl
 	return cl, sv
 }
@@ -88,7 +103,9 @@ var errConnReset = errors.New("simconn: connection reset by peer")
 
 func (s *SimConn) Read(p []byte) (int, error) {
 	h := s.rd
+	defer s.tok.leave()
 	for {
+		s.tok.enter()
 		if s.closed {
 			return 0, errConnClosed
 		}
@@ -110,6 +127,7 @@ func (s *SimConn) Read(p []byte) (int, error) {
 		if h.wclosed {
 			return 0, io.EOF
 		}
+		s.tok.leave()
 		<-h.data
 	}
 }
@@ -118,6 +136,8 @@ func (s *SimConn) Write(p []byte) (int, error) {
 	h := s.wr
 	h.wlock <- struct{}{}
 	defer func() { <-h.wlock }()
+	s.tok.enter()
+	defer s.tok.leave()
 	s.nWrite++
 	if s.werrAt > 0 && s.nWrite == s.werrAt {
 		s.c.Fault("net_write_error")
@@ -135,7 +155,9 @@ func (s *SimConn) Write(p []byte) (int, error) {
 		room := h.window - len(h.buf)
 		if room <= 0 {
 			s.c.Probe("net_writer_blocked_window_full")
+			s.tok.leave()
 			<-h.space
+			s.tok.enter()
 			continue
 		}
 		n := len(p) - done
@@ -175,6 +197,8 @@ func (s *SimConn) abort() {
 }
 
 func (s *SimConn) Close() error {
+	s.tok.enter()
+	defer s.tok.leave()
 	if s.closed {
 		return errConnClosed
 	}
@@ -207,6 +231,7 @@ type wsFrame struct {
 }
 
 type wsHalf struct {
+	tok    *netTok
 	q      []wsFrame
 	cap    int
 	closed bool
@@ -234,6 +259,7 @@ type FakeWS struct {
 	peer   *FakeWS
 	nWrite int
 	werrAt int
+	tok    *netTok
 }
 
 const (
@@ -246,29 +272,38 @@ const (
 
 func NewFakeWSPair(c *Ctx, name, subprotocol string, capacity int, writeErrAtServer int) (*FakeWS, *FakeWS) {
 	c2s, s2c := newWSHalf(capacity), newWSHalf(capacity)
-	cl := &FakeWS{name: name + ":c", rd: s2c, wr: c2s, proto: subprotocol, c: c}
-	sv := &FakeWS{name: name + ":s", rd: c2s, wr: s2c, proto: subprotocol, c: c, werrAt: writeErrAtServer}
+	tok := &netTok{}
+	c2s.tok, s2c.tok = tok, tok
+	cl := &FakeWS{name: name + ":c", rd: s2c, wr: c2s, proto: subprotocol, c: c, tok: tok}
+	sv := &FakeWS{name: name + ":s", rd: c2s, wr: s2c, proto: subprotocol, c: c, werrAt: writeErrAtServer, tok: tok}
 	cl.peer, sv.peer = sv, cl
 	return cl, sv
 }
 
-func wakeCh(ch *chan struct{}) {
+func (h *wsHalf) wake(ch *chan struct{}) {
+	h.tok.leave() // closing is a yield point: publish first
 	old := *ch
 	*ch = make(chan struct{})
 	close(old)
 }
 
 func (f *FakeWS) Close() error {
+	f.tok.enter()
+	defer f.tok.leave()
+	return f.close()
+}
+
+func (f *FakeWS) close() error {
 	if f.closed {
 		return nil
 	}
 	f.closed = true
 	f.wr.closed = true
 	f.rd.closed = true
-	wakeCh(&f.wr.data)
-	wakeCh(&f.wr.space)
-	wakeCh(&f.rd.data)
-	wakeCh(&f.rd.space)
+	f.wr.wake(&f.wr.data)
+	f.wr.wake(&f.wr.space)
+	f.rd.wake(&f.rd.data)
+	f.rd.wake(&f.rd.space)
 	return nil
 }
 
@@ -276,10 +311,12 @@ func (f *FakeWS) write(typ int, data []byte) error {
 	h := f.wr
 	h.wlock <- struct{}{}
 	defer func() { <-h.wlock }()
+	f.tok.enter()
+	defer f.tok.leave()
 	f.nWrite++
 	if f.werrAt > 0 && f.nWrite == f.werrAt {
 		f.c.Fault("net_write_error")
-		f.Close()
+		f.close()
 		return errConnReset
 	}
 	for {
@@ -288,11 +325,13 @@ func (f *FakeWS) write(typ int, data []byte) error {
 		}
 		if len(h.q) < h.cap {
 			h.q = append(h.q, wsFrame{typ, append([]byte(nil), data...)})
-			wakeCh(&h.data)
+			h.wake(&h.data)
 			return nil
 		}
 		f.c.Probe("net_writer_blocked_window_full")
+		f.tok.leave()
 		<-h.space
+		f.tok.enter()
 	}
 }
 
@@ -303,14 +342,18 @@ func (f *FakeWS) WriteMessage(messageType int, data []byte) error { return f.wri
 
 func (f *FakeWS) ReadMessage() (int, []byte, error) {
 	h := f.rd
+	defer f.tok.leave()
 	for {
+		// (re-)acquire before every look at the queue: the handlers called
+		// below contain yield points
+		f.tok.enter()
 		if f.closed {
 			return 0, nil, errConnClosed
 		}
 		if len(h.q) > 0 {
 			fr := h.q[0]
 			h.q = h.q[1:]
-			wakeCh(&h.space)
+			h.wake(&h.space)
 			switch fr.typ {
 			case wsPing:
 				if f.pingH != nil {
@@ -330,6 +373,7 @@ func (f *FakeWS) ReadMessage() (int, []byte, error) {
 		if h.closed {
 			return 0, nil, io.EOF
 		}
+		f.tok.leave()
 		<-h.data
 	}
 }
